@@ -3,10 +3,12 @@
 Fault enumeration over a family of feature-covering seed documents
 (vf.gen.seeds13, object models): every dictionary entry / array element x every
 fault kind (typed replacements, self / missing / cyclic references, references
-to objects of other types, key removal, key duplication) -- the same for every
+to objects of other types, to the ancestors of the damaged object and to other
+existing streams / dictionaries, key removal, key duplication) -- the same for every
 entry of the trailer and of the encryption dictionary, which the builder writes;
 every stream x payload faults (empty, truncations, bit flips, garbage, wrong
-/Length); every token of every unfiltered text stream (page contents, forms,
+/Length; for small payloads of the pure-Python decoders every bit of the first
+8 bytes and one bit of each later byte); every token of every unfiltered text stream (page contents, forms,
 glyph procedures, ToUnicode CMaps) x {delete, duplicate, replace by 0 / name /
 string / [] / <<>>}; and file-level truncation (every offset for two seeds,
 strided for the rest) and damaged startxref / xref rows.  Entry points: extract_text, list(extract_pages),
@@ -39,16 +41,19 @@ LEVEL = "fault_enumeration"
 DESIGN_REF = "DESIGN.md#C13"
 TECHNIQUE = "runtime monitoring under systematic fault injection: outcome-class monitor + sys.monitoring step budget on every (seed, site, fault kind, entry point)"
 LEVEL_TEXT = (
-    'Fault enumeration: every dictionary entry / array element (objects, trailer, encryption dictionary) / stream / content-stream token / file offset of twelve feature-covering seed documents x every fault kind x every entry point is executed under an outcome monitor and a line-count budget (the quick tier is a 1/12 stride sample of the same enumeration, phase chosen by the seed). Right level: single structural faults of a fixed seed family are a finite space that can be enumerated completely; what is not covered is multi-fault damage and other seeds.'
+    'Fault enumeration: every dictionary entry / array element (objects, trailer, encryption dictionary) / stream / content-stream token / file offset of thirteen feature-covering seed documents x every fault kind x every entry point is executed under an outcome monitor and a line-count budget (the quick tier is a 1/12 stride sample of the same enumeration, phase chosen by the seed). Right level: single structural faults of a fixed seed family are a finite space that can be enumerated completely; what is not covered is multi-fault damage and other seeds.'
 )
 RULE = (
     "deterministic enumeration: seeds x fault sites (every dict entry / array element of every object, of the trailer and of the "
     "encryption dictionary, every stream, every token of every unfiltered text stream, file "
     "offsets) x fault kinds (null true 0 -1 2^31 1.5 name string [] [0] {} new-stream self-ref missing-ref 2-cycle 3-cycle "
-    "refs to catalog/page/font/content, remove key, duplicate key; stream: empty, cut 1/4 1/2 3/4 -1, 8 bit flips, garbage, "
-    "Length 0/short/long; token: delete, duplicate, replace by 0 /Name (string) [] <<>>; file: truncation, startxref/xref-row "
-    "damage) x entry points {extract_text, extract_pages, "
-    "extract_text_to_fp(xml)[, nav]}. quick = stride sample of the same enumeration (offset chosen by the seed). "
+    "refs to catalog/page/font/content, refs to the 6 nearest ancestors of the damaged object in the reference graph and to 3 "
+    "type-diverse existing streams and 3 existing dictionaries, remove key, duplicate key; stream: empty, cut 1/4 1/2 3/4 -1, "
+    "8 bit flips, garbage, Length 0/short/long; small LZW/RunLength/ASCII85/ASCIIHex/CCITT payloads: every bit of the first 8 "
+    "bytes + one bit of every later byte; token: delete, duplicate, replace by 0 /Name (string) [] <<>>; file: truncation, "
+    "startxref/xref-row damage) x entry points {extract_text, extract_pages, "
+    "extract_text_to_fp(xml)[, nav]}. quick = stride-12 sample of the same enumeration (offset chosen by the seed), except that "
+    "the header-bit flips are all run and links redirected to an ancestor are sampled with stride 3. "
     "distinct = distinct damaged files; non-trivial = every case (each differs from its seed by exactly one fault)."
 )
 ASSUMPTIONS = [
@@ -64,15 +69,16 @@ ENTRIES = ["extract_text", "extract_pages", "xml"]
 
 
 def minimums(tier: str) -> Dict[str, int]:
-    # the enumeration is deterministic: thorough = 28 889 damaged files / 93 542 runs, quick = 1/12 of it (any phase);
-    # the floors leave ~8-10 % room for changes of the builder's trailer / encryption dictionary
+    # The enumeration is deterministic. thorough: 35 989 damaged files / 128 712 runs; floors at ~88 % (room for changes of
+    # the builder's trailer / encryption dictionary). quick: a stride sample whose phase is the seed, ~3 700 files / ~11 800
+    # runs; floors at ~70 % of the smallest value observed over the phases 0..11, so that every seed passes.
     if tier == "quick":
-        return {"evaluations": 7000, "distinct": 2100, "outcome:returned": 5000, "outcome:family": 1200, "seen:seeds": 12,
-                "seen:kinds": 50, "fault_family:obj": 1350, "fault_family:trailer": 90, "fault_family:stream": 35,
-                "fault_family:content": 240, "fault_family:trunc": 380, "fault_family:file": 5}
-    return {"evaluations": 86000, "distinct": 26500, "outcome:returned": 65000, "outcome:family": 17000, "seen:seeds": 12,
-            "seen:kinds": 54, "fault_family:obj": 17000, "fault_family:trailer": 1250, "fault_family:stream": 540,
-            "fault_family:content": 3200, "fault_family:trunc": 5000, "fault_family:file": 90}
+        return {"evaluations": 8100, "distinct": 2550, "scale_probes": 5, "outcome:returned": 6500, "outcome:family": 1400, "seen:seeds": 13,
+                "seen:kinds": 40, "fault_family:obj": 1600, "fault_family:trailer": 90, "fault_family:stream": 38,
+                "fault_family:content": 240, "fault_family:trunc": 320, "fault_family:file": 4, "fault_family:bits": 190}
+    return {"evaluations": 113000, "distinct": 31500, "scale_probes": 5, "outcome:returned": 92000, "outcome:family": 20000, "seen:seeds": 13,
+            "seen:kinds": 60, "fault_family:obj": 24500, "fault_family:trailer": 1580, "fault_family:stream": 610,
+            "fault_family:content": 3700, "fault_family:trunc": 5000, "fault_family:file": 100, "fault_family:bits": 430}
 
 
 # --------------------------------------------------------------------------
@@ -130,7 +136,12 @@ def _key(d: Dict[Any, Any], name: str) -> Any:
 
 
 VALUE_KINDS = ["null", "true", "zero", "neg1", "big", "real", "name", "string", "empty_array", "array1", "empty_dict", "new_stream",
-               "ref_self", "ref_missing", "cycle2", "cycle3", "ref_catalog", "ref_page", "ref_font", "ref_content"]
+               "ref_self", "ref_missing", "cycle2", "cycle3", "ref_catalog", "ref_page", "ref_font", "ref_content",
+               # references to OTHER EXISTING objects of the document: the nearest ancestors of the damaged object in the
+               # reference graph (closes a cycle through existing objects: form -> outer form, Kids -> ancestor, First ->
+               # outline root ...) and a type-diverse selection of existing streams / dictionaries
+               "ref_anc0", "ref_anc1", "ref_anc2", "ref_anc3", "ref_anc4", "ref_anc5",
+               "ref_stm0", "ref_stm1", "ref_stm2", "ref_dic0", "ref_dic1", "ref_dic2"]
 STRUCT_KINDS = ["remove", "duplicate"]
 STREAM_KINDS = ["s_empty", "s_cut14", "s_cut12", "s_cut34", "s_cut1", "s_flip0", "s_flip1", "s_flip2", "s_flip3", "s_flip4", "s_flip5",
                 "s_flip6", "s_flip7", "s_garbage", "s_len0", "s_lenshort", "s_lenlong"]
@@ -170,6 +181,79 @@ def apply_content_fault(doc: Doc, n: int, ti: int, kind: str) -> Optional[Doc]:
         return None
     st.data = st.data[:a] + rep + st.data[b:]
     return d2
+
+
+def _refs_in(v: Any) -> Iterator[int]:
+    if isinstance(v, Ref):
+        yield v.n
+    elif isinstance(v, Stream):
+        yield from _refs_in(v.d)
+    elif isinstance(v, dict):
+        for x in v.values():
+            yield from _refs_in(x)
+    elif isinstance(v, list):
+        for x in v:
+            yield from _refs_in(x)
+
+
+def ancestors(doc: Doc, objid: int, cap: int = 6) -> List[int]:
+    """Objects from which `objid` is reachable, nearest first (breadth-first over reversed references, ties by number)."""
+    rev: Dict[int, List[int]] = {}
+    for n in sorted(doc.objs):
+        for m in _refs_in(doc.objs[n]):
+            rev.setdefault(m, []).append(n)
+    seen = {objid}
+    order: List[int] = []
+    frontier = [objid]
+    while frontier and len(order) < cap:
+        nxt: List[int] = []
+        for x in frontier:
+            for a in sorted(set(rev.get(x, ()))):
+                if a not in seen:
+                    seen.add(a)
+                    nxt.append(a)
+        order.extend(sorted(nxt))
+        frontier = sorted(nxt)
+    return order[:cap]
+
+
+def diverse(doc: Doc, streams: bool, cap: int = 3) -> List[int]:
+    """Existing stream (or dictionary) objects, round-robin over their (Type, Subtype) signatures, in object order."""
+    groups: Dict[Any, List[int]] = {}
+    for n in sorted(doc.objs):
+        v = doc.objs[n]
+        if isinstance(v, Stream) != streams or not isinstance(v, (Stream, dict)):
+            continue
+        d = v.d if isinstance(v, Stream) else v
+        sig = (repr(d.get("Type")), repr(d.get("Subtype")))
+        groups.setdefault(sig, []).append(n)
+    out: List[int] = []
+    i = 0
+    while len(out) < cap and any(len(g) > i for g in groups.values()):
+        for g in groups.values():
+            if len(g) > i and len(out) < cap:
+                out.append(g[i])
+        i += 1
+    return out
+
+
+_FRAGILE_FILTERS = {"LZWDecode", "LZW", "RunLengthDecode", "RL", "ASCII85Decode", "A85", "ASCIIHexDecode", "AHx", "CCITTFaxDecode", "CCF"}
+
+
+def bit_sites(doc: Doc) -> List[Tuple[int, int, int]]:
+    """(stream, byte, bit) for small payloads that pass through a decoder written in Python (not zlib): every bit of the
+    first 8 bytes, one bit (position = byte index mod 8) of every later byte."""
+    out: List[Tuple[int, int, int]] = []
+    for n in stream_ids(doc):
+        st = doc.objs[n]
+        f = st.d.get("Filter")
+        names = [x.b.decode("latin-1") for x in (f if isinstance(f, list) else [f]) if isinstance(x, Name)]
+        if not (set(names) & _FRAGILE_FILTERS) or not 0 < len(st.data) <= 256:
+            continue
+        for byte in range(len(st.data)):
+            for bit in (range(8) if byte < 8 else [byte % 8]):
+                out.append((n, byte, bit))
+    return out
 
 
 def landmark(doc: Doc, what: str) -> Optional[int]:
@@ -259,6 +343,20 @@ def _mutate(d2: Doc, parent: Any, key: Any, kind: str, objid: Optional[int]) -> 
         d2.objs[nxt + 1] = {"A": Ref(nxt + 2), "Kids": [Ref(nxt)], "Next": Ref(nxt), "First": Ref(nxt), "Last": Ref(nxt), "Parent": Ref(nxt)}
         d2.objs[nxt + 2] = Ref(nxt)
         v = Ref(nxt)
+    elif kind.startswith("ref_anc"):
+        if objid is None:
+            return False
+        anc = ancestors(d2, objid)
+        i = int(kind[7:])
+        if i >= len(anc):
+            return False
+        v = Ref(anc[i])
+    elif kind.startswith("ref_stm") or kind.startswith("ref_dic"):
+        pick = diverse(d2, kind.startswith("ref_stm"))
+        i = int(kind[7:])
+        if i >= len(pick) or pick[i] == objid:
+            return False
+        v = Ref(pick[i])
     elif kind.startswith("ref_"):
         lm = landmark(d2, kind[4:])
         if lm is None:
@@ -501,6 +599,8 @@ def enumerate_cases(seed_name: str, doc: Doc, opts: Dict[str, Any]) -> List[Tupl
     for n in stream_ids(doc):
         for kind in STREAM_KINDS:
             cases.append(("stream", n, kind))
+    for bs in bit_sites(doc):
+        cases.append(("bits", bs, "s_bit"))
     for n in text_stream_ids(doc):
         for ti in range(len(content_tokens(doc.objs[n].data))):
             for kind in CONTENT_KINDS:
@@ -530,6 +630,12 @@ def make_case(doc: Doc, opts: Dict[str, Any], case: Tuple[str, Any, str], base: 
             return None
         if kind.startswith("s_len"):
             return build(d2, opts)
+        return build(d2, opts)
+    if fam == "bits":
+        d2 = copy.deepcopy(doc)
+        b = bytearray(d2.objs[site[0]].data)
+        b[site[1]] ^= 1 << site[2]         # bit 0 = least significant
+        d2.objs[site[0]].data = bytes(b)
         return build(d2, opts)
     if fam == "trailer":
         return apply_trailer_fault(doc, opts, tuple(tuple(x) if isinstance(x, list) else x for x in site), kind)
@@ -572,11 +678,119 @@ def make_case(doc: Doc, opts: Dict[str, Any], case: Tuple[str, Any, str], base: 
 def shards(tier: str, seed: int) -> List[Dict[str, Any]]:
     nshard = 64 if tier == "quick" else 160
     stride = 12 if tier == "quick" else 1
-    return [{"kind": "enum", "sub": i, "nshard": nshard, "stride": stride, "phase": seed % stride} for i in range(nshard)]
+    out = [{"kind": "enum", "sub": i, "nshard": nshard, "stride": stride, "phase": seed % stride} for i in range(nshard)]
+    # proportionality probes: the same document shape at two sizes; executed lines per unit of size must not grow
+    for fam in SCALE_FAMILIES:
+        out.append({"kind": "scale", "family": fam, "sub": 0})
+    return out
+
+
+# --------------------------------------------------------------------------
+# proportionality probes ("work bounded in proportion to the input size")
+# --------------------------------------------------------------------------
+SCALE_FAMILIES = ["pages_in_objstm", "pages_direct", "outline_siblings", "name_tree", "revisions"]
+
+
+def build_scaled(family: str, n: int) -> Tuple[bytes, Dict[str, Any], str]:
+    """A well-formed document whose size is linear in n; -> (bytes, opts, entry point)."""
+    from vf.gen.pdfw import N, font_type1
+
+    doc = Doc()
+    opts: Dict[str, Any] = {}
+    entry = "extract_text"
+    cat, pages = doc.alloc(), doc.alloc()
+    catd: Dict[str, Any] = {"Type": N("Catalog"), "Pages": pages}
+    kids = []
+    npages = n if family in ("pages_in_objstm", "pages_direct") else 2
+    for i in range(npages):
+        f = doc.add(font_type1("Helvetica"))
+        c = doc.add(Stream({}, b"BT /F1 10 Tf 20 100 Td (page %d) Tj ET" % i))
+        kids.append(doc.add({"Type": N("Page"), "Parent": pages, "MediaBox": [0, 0, 200, 200], "Resources": doc.add({"Font": {"F1": f}}),
+                             "Contents": c}))
+    doc.set(pages, {"Type": N("Pages"), "Kids": kids, "Count": len(kids)})
+    if family == "pages_in_objstm":
+        opts = {"xref": "stream", "objstm": [k for k, v in doc.objs.items() if not isinstance(v, Stream)] + [cat.n, pages.n]}
+    elif family == "outline_siblings":
+        root = doc.alloc()
+        items = [doc.alloc() for _ in range(n)]
+        for i, it in enumerate(items):
+            d = {"Title": b"item %d" % i, "Parent": root, "Dest": [kids[0], N("Fit")]}
+            if i:
+                d["Prev"] = items[i - 1]
+            if i + 1 < n:
+                d["Next"] = items[i + 1]
+            doc.set(it, d)
+        doc.set(root, {"Type": N("Outlines"), "First": items[0], "Last": items[-1], "Count": n})
+        catd["Outlines"] = root
+        opts = {"nav": True}
+        entry = "nav"
+    elif family == "name_tree":
+        leaves = []
+        for j in range(0, n, 8):
+            names = []
+            for i in range(j, min(j + 8, n)):
+                names += [b"dest-%05d" % i, [kids[0], N("Fit")]]
+            leaves.append(doc.add({"Limits": [names[0], names[-2]], "Names": names}))
+        catd["Names"] = {"Dests": doc.add({"Kids": leaves})}
+        catd["PageLabels"] = {"Nums": [x for i in range(0, n, 4) for x in (i, {"S": N("D"), "St": i + 1})]}
+        opts = {"nav": True}
+        entry = "nav"
+    doc.set(cat, catd)
+    doc.trailer["Root"] = cat
+    if family == "revisions":
+        from vf.gen.xrefw import render_history
+
+        hist = []
+        for r in range(max(n // 8, 2)):
+            objs = {k: v for k, v in doc.objs.items()} if r == 0 else {kids[0].n: dict(doc.objs[kids[0].n]), 900 + r: {"Rev": r}}
+            hist.append({"objs": objs, "root": cat.n, "info": None})
+        R = render_history(hist, random.Random(13), forms=["table" if r % 2 else "stream" for r in range(len(hist))])
+        return R.data, {}, "extract_text"
+    return build(doc, opts), opts, entry
+
+
+def run_scale(family: str, rec) -> None:
+    small, large = 48, 192
+    steps = {}
+    size = {}
+    for n in (small, large):
+        data, opts, entry = build_scaled(family, n)
+        try:
+            run_with_budget(lambda: run_entry(entry, data, opts), 10 ** 9)
+        except Exception as e:  # noqa: BLE001
+            rec.fail("scale_probe_raised:%s:%s" % (family, type(e).__name__), {"scale_family": family}, "%s n=%d: %s: %s" % (family, n, type(e).__name__, e))
+            return
+        steps[n] = last_steps()
+        size[n] = len(data)
+    rec.count("scale_probes")
+    rec.case(chash("scale", family), True)
+    growth = steps[large] / max(steps[small], 1)
+    sgrowth = size[large] / max(size[small], 1)
+    rec.see("scale_growth", "%s:steps x%.1f for size x%.1f" % (family, growth, sgrowth))
+    # linear work grows like the size (x4 here); quadratic work grows like its square (x16): the threshold lies between
+    if growth > 2.2 * sgrowth:
+        rec.fail("work_not_proportional:" + family, {"scale_family": family},
+                 "%s: executed lines grew x%.1f (%d -> %d) while the document grew x%.1f (%d -> %d bytes)" % (
+                     family, growth, steps[small], steps[large], sgrowth, size[small], size[large]))
+
+
+def case_stride(doc: Doc, case: Tuple[str, Any, str], stride: int) -> int:
+    """Sampling stride of one case in the quick tier: rare, single-case mechanisms are sampled more densely."""
+    fam, site, kind = case
+    if fam == "bits" and site[1] < 8:
+        return 1                    # header bits of LZW / RunLength / ASCII / CCITT payloads: all of them, every run
+    if fam == "obj" and kind.startswith("ref_anc"):
+        parent, key = _container(doc, site)
+        if isinstance(parent[key], Ref):
+            return min(stride, 3)   # a link redirected to an ancestor: consecutive kinds of one site cover every phase
+    return stride
 
 
 def run_shard(spec: Dict[str, Any], rec) -> None:
     sys.setrecursionlimit(1000)  # the interpreter default the property talks about
+    if spec["kind"] == "scale":
+        run_scale(spec["family"], rec)
+        return
     seeds = [(name, fn()) for name, fn in SEEDS]
     gi = 0
     for name, (doc, opts) in seeds:
@@ -585,9 +799,10 @@ def run_shard(spec: Dict[str, Any], rec) -> None:
         rec.see("seeds", name)
         for ci, case in enumerate(cases):
             gi += 1
-            if gi % spec["stride"] != spec["phase"] % spec["stride"]:
+            st = case_stride(doc, case, spec["stride"])
+            if gi % st != spec["phase"] % st:
                 continue
-            if (gi // spec["stride"]) % spec["nshard"] != spec["sub"]:
+            if (gi // st) % spec["nshard"] != spec["sub"]:
                 continue
             data = make_case(doc, opts, case, base)
             if data is None or data == base:
@@ -611,6 +826,12 @@ def run_shard(spec: Dict[str, Any], rec) -> None:
 
 def replay(case: Dict[str, Any]) -> List[Tuple[str, str]]:
     sys.setrecursionlimit(1000)
+    if "scale_family" in case:
+        from vf.common import Recorder
+
+        r = Recorder()
+        run_scale(case["scale_family"], r)
+        return [(f["key"], f["detail"]) for f in r.failures]
     doc, opts = dict(SEEDS)[case["seed"]]()
     base = build(doc, opts)
     site = case["site"]
